@@ -429,7 +429,9 @@ struct Exec
                 return fail("C13/redeclare-rejected-wrongly", op, opi, arg_s, std::string("declaration ended with ") + CATNAME[r.cat]);
             if (conflict)
             {
-                if (r.cat != C_DEV)
+                // the declaration itself must be refused (a developer error raised by the modifier
+                // that follows it does not count)
+                if (r.cat != C_DEV || !r.declare_threw)
                     return fail("C13/redeclare-accepted", op, opi, arg_s,
                                 std::string("name '") + NAMES[name] + "' is already declared with another kind or in another group, yet the declaration was accepted");
                 return;
